@@ -1338,6 +1338,10 @@ fn main() {
                 (p, e)
             }
         };
+        let (prog, env, base_flags) = if profile == "C07" && case == 0 && use_corpus {
+            // regression case of known finding F9: a guard with a non-canonical extension argument and a failing program
+            (sexp("(softfork (q . 0x089f) (q . 0x0001) (q . (f (q . 7))) (q . 0x9c))").expect("F9 program"), atom_json(&[]), 0u32)
+        } else { (prog, env, base_flags) };
         let prog = fix_guards(&mut r, &prog, base_flags);
         if tree_depth(&prog) > 120 || tree_depth(&env) > 120 {
             continue;
@@ -1410,6 +1414,9 @@ fn main() {
                 }
                 if rs == 0 {
                     rs = *r.pick(&restrict);
+                }
+                if case == 0 && use_corpus {
+                    rs = 0x0001;
                 }
                 run_one(&mut out, case, &prog, &env, &Cfg::new("restricted", "chia", f | rs, 0).rel("ok_implies_ok_same", "base"), &mut line);
                 run_one(&mut out, case, &prog, &env, &Cfg::new("mempool", "chia", f | 0x0002 | 0x0004 | 0x0200 | 0x0001 | 0x0010, 0).rel("ok_implies_ok_same", "base"), &mut line);
